@@ -4,6 +4,9 @@ import json, subprocess, sys, os
 ROOT = "/verif"
 CHECKS = {
  # id: (category, technique, text, note, design_ref)
+ "C01": ("translation_validation", "runtime monitor / translation validation: generated executable programs; the source text and every compiled output are executed by node/V8 in fresh contexts and their recorded print sequences and completions compared",
+         "Programs are terminating and deterministic by construction (bounded loops, no recursion, no text-dependent values). Each is rendered in 2-3 layouts, compiled under 6 (quick) / all 21 (thorough) code configurations, each also with a source map (code must be identical); V8 runs the source itself and each distinct output. 21 hand-written hazard programs run under all configurations on every run.",
+         "Trusts V8 as reference semantics. Programs larger than ~400 tokens are rare; equal observable behaviour can hide a mis-parse whose value coincides (C02 checks tree shape directly).", "5/C01"),
  "C02": ("exploration", "runtime monitor: generated-tree oracle (ECMAScript-aware unparser with ground truth, each text confirmed by acorn) vs recorded xjs tree; exhaustive operator pairs/triples and statement-form matrix + random trees in many layouts",
          "Trees are generated, rendered by an unparser written from the ECMAScript grammar in 6-10 layouts (minimal/redundant parentheses, spacing, line breaks incl. restricted productions, comments, ;/ASI, CRLF); acorn must read each text as the generated tree (else the case is dropped as oracle-inconsistent); xjs's recorded tree must equal it. All 16^2 operator pairs x shapes x operand decorations, all 16^3 triples x 5 shapes and all ordered pairs of 29 statement forms are enumerated completely; random trees beyond.",
          "Trusts acorn 8 as ECMAScript reference on the subset and the S-expression normalisers (three front ends cross-checked on every case).", "5/C02"),
@@ -19,10 +22,36 @@ CHECKS = {
  "C12": ("fault_enumeration", "runtime monitor with fault enumeration: every single-token deletion, separator removal and truncation point of valid programs; acorn AND V8 decide 'no longer JavaScript'; recorded strict-mode errors and first error position checked",
          "For each sampled valid program all corruptions of the three kinds are enumerated (not sampled); those that both reference parsers reject must yield a strict-mode error whose first range does not precede the last intact token. Six documented leniencies of the parser (early errors etc.) are open findings keyed by root cause and re-run from stored witnesses on every run.",
          "Attribution of an accepted text to a known leniency is by feature of xjs's own tree (DESIGN 6.4): an unrelated missing check that only shows on texts with such a feature would be masked.", "5/C12"),
+ "C04": ("exploration", "runtime monitor: recording interceptors (every invocation with current token, lexer state, hook: binding power before/after) + differential against the interceptor-free run + renderer ground truth for construct starts",
+         "Random stacks of 0..8 token/statement/expression interceptors (interleaved installation, direct or via Install(plugin), pass-through or per-step re-entrant) over valid programs and malformed inputs; transparency (tokens, tree DeepEqual, errors, outputs), identical step sequences, installation order inside a step, current token = first token of the construct (every statement and full expression offered exactly once), lexer on the lexeme's first byte, binding power restored (hook).",
+         "Ordering clauses judged on all-pass-through stacks; which sub-expressions get their own step is not prescribed (sound weaker reading).", "5/C04"),
+ "C05": ("exploration", "runtime monitor: generic level-rule unparser as oracle for registered operators (exhaustive levels x neighbours x shapes) + sequential reference model of registration histories with twin-builder differential",
+         "Every level 1..13 x every built-in neighbour on either side x both shapes, every pair of levels for two registered operators and registered prefix/postfix against all neighbours are enumerated; random mixed trees; 2000/20000 registration histories in lock-step with a model of ids and role sets, then real builder vs a twin that skipped refused calls (hook: binding-power tables equal). Level 1 is an open finding re-run on every run.",
+         "Cross-role registration on the same token is not generated (not specified by the statement).", "5/C05"),
+ "C06": ("exploration", "runtime monitor: differential/metamorphic over real pretty-printer executions (re-parse vs compact, format twice, option pairs normalised by a reference tokenizer) + acorn reading of every formatted output",
+         "Programs in all layouts x pretty option sets (8 per program quick, all 20 thorough) + exhaustive statement-pair matrix with hazardous statement starts and brace-less bodies.",
+         "Reference tokenizer decides which ';' are statement terminators; acorn is the ECMAScript reference.", "5/C06"),
+ "C07": ("translation_validation", "runtime monitor / translation validation: literal texts compiled by the real lexer+printer, source and emitted literals evaluated by node/V8, values compared as UTF-16 code units / IEEE-754 bits; exhaustive escape strata",
+         "Every \\xHH, every \\uHHHH, every ASCII byte raw and escaped, in both quote styles, alone and embedded, are enumerated completely; \\u{...} at all boundaries + 4096 sampled points; line continuations, legacy octal, surrogates, random concatenations, backtick strings, all numeric shapes; compact and pretty.",
+         "Trusts V8 for literal values; source texts are valid UTF-8.", "5/C07"),
+ "C08": ("exploration", "runtime monitor: emitted maps decoded by an independent Source-Map-v3 decoder; generated code re-tokenized by a reference tokenizer; each segment matched against the renderer's ground-truth token table (same lexeme, same occurrence)",
+         "Programs in all layouts x {compact, pretty option sets}: every segment on a generated token start, pointing at the start of the same source lexeme (same occurrence), ordered, identifiers covered by named segments, code unchanged by requesting a map.",
+         "ASCII programs (column unit not fixed by the property); own decoder cross-checked in C09.", "5/C08"),
  "C09": ("exploration", "runtime monitor: reference-model (sequential model of the builder) + independent Source-Map-v3 decoder over operation histories; exhaustive VLQ delta enumeration",
          "Every history is executed on the real sourcemap builder in lock-step with a sequential model; the emitted mappings are decoded by an own decoder and compared segment by segment. Deltas in [-2^20,2^20] are enumerated completely for source line/column (0..2^20 generated column, +-2^12 name index); random histories of up to 200 operations beyond. Held-on-what-was-observed, not a proof.",
          "Trusts the own decoder (cross-checked against go-sourcemap on a sample) and the reading of the v3 format in DESIGN 4.6; column unit = bytes.", "5/C09"),
 }
+CHECKS.update({
+ "C13": ("exploration", "runtime monitor: differential between the four mode combinations of the real parser + generated-tree oracle for tolerant recovery and smart-semicolon cuts (acorn confirms the ';'-separated variant)",
+         "(a) strict-accepted => tolerant tree DeepEqual, no errors; (b) fused statements / cut closing braces => tolerant keeps every statement; (c) no line-leading '(' '[' => smart == default incl. on malformed inputs; (d) line-separated statements starting with '(' '[' => smart yields the generated tree.",
+         "'(' / '[' first on a line inside an expression is only run for totality (statement speaks of statements).", "5/C13"),
+ "C15": ("exploration", "runtime monitor: renderer ground truth of comment placement + reference tokenization of pretty/compact output + differential against the undecorated program",
+         "Programs decorated at statement-list gaps with // comments of 11 hostile payload kinds and blank runs; every comment once, verbatim, in order, before the same token; blank separation kept; compact output comment-free and byte-identical to the comment-free program's.",
+         "Statement-level comments only; text compared up to trailing blanks.", "5/C15"),
+ "C16": ("exploration", "runtime monitor: recording interceptors (IsInFunction, CurrentContext, hook: context stack) vs the renderer's per-token nesting ground truth; final-state invariant on valid and malformed inputs in 4 modes",
+         "Heavily nested programs (blocks, declarations, function expressions in arguments/literals/conditions, depth to 20) and 10^5 (quick) malformed inputs for the final-state clause.",
+         "Inside a function body both FunctionContext and BlockContext are accepted as innermost context.", "5/C16"),
+})
 REASONS_PENDING = "check under construction in this round (see DESIGN.md); not claimed yet"
 def main():
     props = [json.loads(l)["id"] for l in open(f"{ROOT}/properties.jsonl")]
